@@ -171,7 +171,7 @@ class C12(F.PropCheck):
         if x < 0.8: return k['CALL_REGISTER_RESULT'], reg_result(rng.choice([None, None, 5, 0, 9])), 'srv:regresult'
         call = rng.choice([10, 20, 30, 40, 50, 60, 70, 75, 100, 110, 115, 210, 220, 230, 250, 260, 290, 300, 310, 320, 420, 440, 450, 460, 470, 500, 510,
                            600, 620, 640, 680, 690, 1000, 1010, rng.randrange(0, 1200), rng.getrandbits(32)])
-        n = rng.choice([0, 1, 4, 7, 17, 21, 22, 29, 64, rng.randrange(0, 200)])
+        n = rng.choice([0, 1, 2, 3, 4, 5, 6, 7, 8, 9, 12, 16, 17, 21, 22, 29, 64, rng.randrange(0, 200)])
         return call, bytes(rng.getrandbits(8) for _ in range(n)), 'srv:other'
 
     def gen_abstract(self, rng, cid):
@@ -210,6 +210,16 @@ class C12(F.PropCheck):
                 if rng.random() < 0.5: evs.append(('TIME', [tot - (tot // per) * per + rng.choice([0, 1, 20000])], b'')); evs.append(('TICK', [i], b''))
                 if rng.random() < 0.6: toggle(i)
                 if rng.random() < 0.3: evs.append(('APT', [], b''))
+            elif a < 0.38:   # enter by hold, then factory-reset hold / leave by button
+                tags.append('cfgmode-then-button')
+                if st[i]: toggle(i); evs.append(('TIME', [400000], b''))
+                toggle(i); evs.append(('HOLD', [i, 20000, 250], b'')); toggle(i)
+                evs.append(('TIME', [rng.choice([100000, 1000000, 3100000])], b''))
+                if rng.random() < 0.5: evs.append(('APT', [], b''))
+                j = rng.randrange(len(b.inputs)) if rng.random() < 0.3 else i
+                if st[j]: toggle(j); evs.append(('TIME', [50000], b''))
+                toggle(j); evs.append(('HOLD', [j, 20000, rng.choice([250, 250, 249, 100])], b''))
+                if rng.random() < 0.5: toggle(j)
             elif a < 0.6:    # toggle train
                 tags.append('toggles')
                 n = rng.choice([9, 10, 10, 11, 12, 19, 20, 21, 22, 5])
@@ -241,7 +251,9 @@ class C12(F.PropCheck):
                     f = req_fields(p) if call == k['CALL_CALCFG_REQUEST'] else None
                     if f and f['gate'] and f['cmd'] == k['CMD_ENTER_CFG_MODE'] and f['auth'] == 1 and pro < 0.9:
                         tags.append('srv:enter-cfg-auth')
-                        return F.Case(cid, evs, tags)
+                        if rng.random() < 0.4: return F.Case(cid, evs, tags)
+                        if rng.random() < 0.6: evs.append(('TIME', [1000000], b'')); evs.append(('APT', [], b''))
+                        if rng.random() < 0.3: evs.append(('TIME', [300000000], b'')); evs.append(('APT', [], b''))
             else:
                 evs.append(('TIME', [rng.choice([1000, 3100000, 250000])], b''))
                 if rng.random() < 0.5: evs.append(('APT', [], b''))
@@ -315,7 +327,7 @@ class C12(F.PropCheck):
         f = req_fields(bytes(e[2]))
         return bool(f and f['gate'] and f['cmd'] == k['CMD_ENTER_CFG_MODE'] and f['auth'] == 1)
 
-    def nontrivial(self, case, io): return any(o[0] in KEEP for o in io[1])
+    def nontrivial(self, case, io): return len(self.norm(io[1])) > 0
 
     # ---------------- monitor: the property text on the implementation trace (no model involved)
     def monitor(self, case, status, outs):
@@ -426,9 +438,11 @@ class C12(F.PropCheck):
                     if unauth and f['cmd'] in (k['CMD_ENTER_CFG_MODE'], k['CMD_RECALIBRATE']) and res not in (k['RES_UNAUTHORIZED'], k['RES_NOT_SUPPORTED']):
                         v.append('unauthorised CALCFG request cmd=%d answered with result %d' % (f['cmd'], res))
                 elif o[0] == 'FACTORYHOOK':
-                    okf = (kd == 'BOOT' and flashcfg == 0) or (kd in ('TICK', 'HOLD', 'ADV') and cfg_before and held(t if kd != 'ADV' else t, True))
-                    if kd == 'ADV':   # the hold may complete anywhere inside the step; re-check with the latest time
-                        okf = cfg_before and any(hold_capable(x) and x['flags'] & k['FLAG_FACTORY_RESET'] for x in b.inputs) and held(t, True)
+                    # time of the reset: 500 ms before the restart that follows it (else the end of the event)
+                    tf = t
+                    for o2 in seg:
+                        if o2[0] == 'RESTART': tf = min(t, o2[1][0] - 500000 + tol)
+                    okf = (kd == 'BOOT' and flashcfg == 0) or (kd in ('TICK', 'HOLD', 'ADV') and cfgmode and held(tf, True))
                     if not okf: v.append('settings erased (factory defaults) by event #%d (%s) without a factory-reset hold in configuration mode' % (n, kd))
                 elif o[0] == 'CFGFLASH':
                     mask = o[1][2] & 15
